@@ -33,11 +33,11 @@ def cases(tier, seed):
         for pat, model, fpv in itertools.product(PATTERNS, ["single", "batch", "mt"], [False, True]):
             for order in (orders if tier == "thorough" else rnd.sample(orders, 3)):
                 yield {"kind": "posterior", "model": model, "pattern": pat, "order": order, "fast_pred_var": fpv, "lik": rnd.choice(["gauss", "fixed"]) if model != "mt" else "mt",
-                       "n": rnd.choice([5, 8]), "seed": rnd.randrange(10**6)}
+                       "n": rnd.choice([5, 8]), "rank": rnd.choice([0, 1, 2]), "fillvalue_target": rnd.random() < 0.25, "seed": rnd.randrange(10**6)}
         for pat, model in itertools.product(PATTERNS, ["single", "batch", "mt"]):
-            yield {"kind": "mll", "model": model, "pattern": pat, "lik": "gauss" if model != "mt" else "mt", "n": rnd.choice([5, 8]), "seed": rnd.randrange(10**6)}
+            yield {"kind": "mll", "model": model, "pattern": pat, "lik": "gauss" if model != "mt" else "mt", "n": rnd.choice([5, 8]), "rank": rnd.choice([0, 1]), "seed": rnd.randrange(10**6)}
         for pat, pol, b in itertools.product(PATTERNS, ["mask", "fill"], [[], [2]]):
-            yield {"kind": "lik_terms", "pattern": pat, "policy": pol, "batch": b, "n": 6, "seed": rnd.randrange(10**6)}
+            yield {"kind": "lik_terms", "pattern": pat, "policy": pol, "batch": b, "n": 6, "fillvalue_target": True, "seed": rnd.randrange(10**6)}
             yield {"kind": "lik_terms", "pattern": pat, "policy": pol, "batch": b, "n": 4, "t": 2, "seed": rnd.randrange(10**6)}
 
 
@@ -117,7 +117,7 @@ def _build(case, g):
         t = 2
         X = util.randn(g, n, 2)
         y = util.randn(g, n, t)
-        lik = gpytorch.likelihoods.MultitaskGaussianLikelihood(num_tasks=t, rank=0)
+        lik = gpytorch.likelihoods.MultitaskGaussianLikelihood(num_tasks=t, rank=case.get("rank", 0))  # rank > 0: inter-task noise is not diagonal
         model = util.MTGP(X, y, lik, t, 1, kern, 2)
         miss = torch.zeros(n * t, dtype=torch.bool)
         _, fill = _mask(case["pattern"], g, (n * t,))
@@ -140,6 +140,10 @@ def _build(case, g):
         else:
             fill(miss)
     util.randomize(model, g, 0.5)
+    if case.get("fillvalue_target"):
+        # a genuine observation that happens to equal the value the 'fill' policy writes into missing slots
+        obs_idx = (~miss).reshape(-1).nonzero().reshape(-1)
+        y.reshape(-1)[obs_idx[0]] = -999.0
     yn = y.clone()
     yn[miss] = float("nan")
     model.set_train_data(X, yn, strict=False)
@@ -310,6 +314,10 @@ def _lik_terms(case, ctx, g):
     miss = rows.reshape(mean.shape)
     if pol == "mask" and b:
         miss = miss.any(0, keepdim=True).expand_as(miss).clone()  # documented: masked for the complete batch
+    if case.get("fillvalue_target"):
+        obs_idx = (~miss).reshape(-1).nonzero().reshape(-1)
+        if obs_idx.numel():
+            y.reshape(-1)[obs_idx[0]] = -999.0  # a genuine observation equal to the 'fill' policy's placeholder value
     yn = y.clone()
     yn[miss] = float("nan")
     elp_full = -0.5 * (((y - mean) ** 2 + v) / r + torch.log(r) + math.log(2 * math.pi))
